@@ -95,7 +95,6 @@ def check_tree_x(case, rec):
 
 
 CHECKS = {'tree': check_tree, 'tree-x': check_tree_x}
-NO_SHRINK = {'tree-x'}
 
 
 def shard_skeletons(ctx, shard, nshards, n, depth):
